@@ -18,6 +18,7 @@ func init() {
 			{"SORT-TABLE", ruleSortTable},
 			{"COMPARE-TABLES", ruleCompareTables},
 			{"PANIC-ACCESSOR", rulePanicAccessor},
+			{"MINMAX-TABLE", ruleMinMaxTable},
 			{"LIMIT-TABLE", ruleLimitTable},
 			{"INDEX-GUARD", func(c *eng.Ctx) { ruleIndexGuard(c, "INDEX-GUARD", []string{"internal/planner"}, 5) }},
 		},
